@@ -25,6 +25,12 @@ Lemma self_appends_ok :
   /\ unreset_appends = [].
 Proof. vm_compute. split; reflexivity. Qed.
 
+(* chain methods write the instance getInstance returned, never the receiver's statement; DB.Session
+   writes tx.Statement.<field> only under options that made it clone the statement first (the model's
+   Session{SkipHooks} / WithContext clone, the other options share) *)
+Lemma receiver_writes_ok : receiver_writes = [] /\ session_unguarded = [].
+Proof. vm_compute. split; reflexivity. Qed.
+
 (* Where.Build swaps a leading single Or on a private copy (the model's h_swap allocates) *)
 Lemma where_swap_ok : where_build_swap = MCopy.
 Proof. vm_compute. reflexivity. Qed.
